@@ -154,7 +154,10 @@ def _email(v):
 def _uri(v):
     if not isinstance(v, str):
         return True
-    return re.match(r"[A-Za-z][A-Za-z0-9+.-]*:", v) is not None
+    # JSight's "uri" follows Go's url.ParseRequestURI: an absolute URI or an absolute path ("/a/b").
+    # The format keyword is an annotation with an open vocabulary in OpenAPI 3.0; the looser reading is used
+    # so that the difference between "URI" and "URI reference" cannot raise an alarm.
+    return re.match(r"[A-Za-z][A-Za-z0-9+.-]*:", v) is not None or v.startswith("/")
 
 
 def is_number(checker, inst):
